@@ -133,7 +133,8 @@ void HyperedgeTreeNode::writeEdgesToConns(HyperedgeTreeEdge *ignored,
 // appropriate ConnEnds for each connector.
 //
 void HyperedgeTreeNode::addConns(HyperedgeTreeEdge *ignored, Router *router,
-        ConnRefList& oldConns, ConnRef *conn)
+        ConnRefList& oldConns, ConnRef *conn,
+        const VertexConnEndMap *terminalConnEnds)
 {
     // If no connector is set, then we must be starting off at a junction.
     COLA_ASSERT(conn || junction);
@@ -163,7 +164,7 @@ void HyperedgeTreeNode::addConns(HyperedgeTreeEdge *ignored, Router *router,
             (*curr)->conn = conn;
             
             // Continue recursive traversal.
-            (*curr)->addConns(this, router, oldConns);
+            (*curr)->addConns(this, router, oldConns, terminalConnEnds);
         }
     }
 }
@@ -568,20 +569,20 @@ void HyperedgeTreeEdge::writeEdgesToConns(HyperedgeTreeNode *ignored,
 // appropriate ConnEnds for each connector.
 //
 void HyperedgeTreeEdge::addConns(HyperedgeTreeNode *ignored, Router *router,
-        ConnRefList& oldConns)
+        ConnRefList& oldConns, const VertexConnEndMap *terminalConnEnds)
 {
     COLA_ASSERT(conn != nullptr);
     HyperedgeTreeNode *endNode = nullptr;
     if (ends.first && (ends.first != ignored))
     {
         endNode = ends.first;
-        ends.first->addConns(this, router, oldConns, conn);
+        ends.first->addConns(this, router, oldConns, conn, terminalConnEnds);
     }
 
     if (ends.second && (ends.second != ignored))
     {
         endNode = ends.second;
-        ends.second->addConns(this, router, oldConns, conn);
+        ends.second->addConns(this, router, oldConns, conn, terminalConnEnds);
     }
 
     if (endNode->finalVertex)
@@ -599,6 +600,19 @@ void HyperedgeTreeEdge::addConns(HyperedgeTreeNode *ignored, Router *router,
             if (result)
             {
                 break;
+            }
+        }
+        if (!result && terminalConnEnds)
+        {
+            // The hyperedge was registered by a list of terminals rather
+            // than by a junction, so there are no original connectors.  
+            // Use the ConnEnd the terminal was registered with.
+            VertexConnEndMap::const_iterator terminal =
+                    terminalConnEnds->find(endNode->finalVertex);
+            if (terminal != terminalConnEnds->end())
+            {
+                connend = *(terminal->second);
+                result = true;
             }
         }
         if (result)
